@@ -17,7 +17,7 @@ From Coq Require Import ZArith List Bool String Sorted Permutation.
 From FrameModel Require Import Num.QcTac PB.Expr PB.Cnf PB.Robdd PB.Codify PB.Sat
   RectSearch.Coords RectSearch.Names RectSearch.Encode RectSearch.Registry RectSearch.Shapes RectSearch.EncodeFacts
   RectSearch.GridFacts RectSearch.BoxFacts RectSearch.AttachFacts RectSearch.ShapesFacts RectSearch.SearchFacts
-  RectSearch.BboxFacts RectSearch.Examples RectSearch.GridGen RectSearch.GridTheorems RectSearch.SelectBox.
+  RectSearch.BboxFacts RectSearch.Examples RectSearch.GridGen RectSearch.GridIff RectSearch.GridTheorems RectSearch.SelectBox.
 Import ListNotations.
 Local Open Scope nat_scope.
 
@@ -130,6 +130,13 @@ Theorem C08_full_grid_general : forall xs ys inp,
   full_grid inp = true /\ xcoords (definecoords inp) = xs /\ ycoords (definecoords inp) = ys.
 Proof. exact full_grid_general. Qed.
 Print Assumptions C08_full_grid_general.
+
+(* ... and conversely: the hypothesis [full_grid] of the theorems is exactly "the input is a rectangular grid of cells" *)
+Theorem C08_full_grid_iff : forall inp, full_grid inp = true <->
+  exists xs ys, StronglySorted Qclt xs /\ StronglySorted Qclt ys /\ 2 <= List.length xs /\ 2 <= List.length ys /\
+                is_grid xs ys inp.
+Proof. exact full_grid_iff. Qed.
+Print Assumptions C08_full_grid_iff.
 
 (* (iii) for grids given by their coordinate lists *)
 Theorem C08_shapes_exact_grid : forall xs ys inp k (m0 : memory),
